@@ -146,6 +146,9 @@ class JSONSerialization(Serialization):
             return {'anyOf': [cls.class__schema(cls_) for cls_ in class_]}
         elif class_ in cls.json_schema_literal_types:
             return {'type': cls.json_schema_literal_types[class_]}
+        elif class_ in (bool, list, tuple):
+            # instances serialize to a JSON boolean / array, not to an object
+            return {'type': 'boolean' if class_ is bool else 'array'}
         elif issubclass(class_, Parameterized):
             return {'type': 'object', 'properties': class_.param.schema(safe)}
         else:
